@@ -16,25 +16,19 @@
 (* manifests (one stream opened and filled per two steps) and the          *)
 (* invariants say that each model algorithm computes what ManifestContract *)
 (* demands (refinement of a one-step contract), at token level and at file *)
-(* level (every sub-range read), EXCEPT in the named classes where the     *)
-(* faithful model contains a genuine defect of the code (DESIGN.md 3,      *)
-(* point 2):                                                               *)
-(*   KF_C10_1  ZStart(s,t): a non-empty token that starts at the stream    *)
-(*             offset of a zero-length block lying before the data block   *)
-(*             that holds that offset.  GoMan: firstBlock may return -1 -> *)
-(*             panic; Py: first_block may return None -> empty result.     *)
-(*             Py, file level: ZSpan(s,t), a token COVERING such an offset *)
-(*             leaves a zero-size range in the file's segment list and a   *)
-(*             read starting there finds nothing (same first_block).       *)
+(* level (every sub-range read).                                           *)
+(* The models follow the code as of /repo commits d02d736 (Go firstBlock = *)
+(* sort.Search lower bound), b303e5c (Python first_block likewise) and     *)
+(* bc06505 (EscapeName escapes the backslash); the defects those commits   *)
+(* repaired (KF-C10-1a/1b/1c, KF-C10-2) are kept as HISTORY operators with *)
+(* checkable lemmas.  One named exclusion remains, where the faithful      *)
+(* model still contains a genuine defect of the code (DESIGN.md 3, pt 2):  *)
 (*   KF_C10_3  ZSeg(s,t): an EMPTY token positioned strictly inside a      *)
 (*             block.  GoFs: loadManifest appends a zero-length            *)
 (*             storedSegment, and a positioned read (Seek+Read) that lands *)
 (*             on it returns io.EOF.                                       *)
-(*   KF_C10_2  BsOct(n): an unescaped name with a backslash followed by    *)
-(*             three octal digits (<= \377).  GoManEscape leaves the       *)
-(*             backslash alone, so the name reads back differently.        *)
-(* The excluded cases stay in the generator; RUN + JUDGE re-confirm on     *)
-(* every run whether the code still has them.                              *)
+(* The excluded case stays in the generator; RUN + JUDGE re-confirm on     *)
+(* every run whether the code still has it.                                *)
 (***************************************************************************)
 EXTENDS Manifest, TLC, Json, IOUtils
 
@@ -136,21 +130,34 @@ GoFsReadByte(fsegs, size, o) ==
     ELSE LET p == GoFsSeek(fsegs, 1, 0, o)
          IN IF p.idx > Len(fsegs) THEN EOF
             ELSE IF fsegs[p.idx][3] = 0 THEN EOF            \* storedSegment.ReadAt on a zero-length segment
-            ELSE <<fsegs[p.idx][1], fsegs[p.idx][2] + p.segOff>>
+            ELSE <<Strip(fsegs[p.idx][1]), fsegs[p.idx][2] + p.segOff>>
 
 (***************************************************************************)
 (* sdk/go/manifest: firstBlock + sendFileSegmentIterByName (0-based)       *)
 (***************************************************************************)
 Offsets(blocks) == [i \in 0 .. Len(blocks) |-> SumSizes(blocks, i)]       \* blockOffsets, len = n+1
 
-RECURSIVE BinSearch(_, _, _, _, _)
-BinSearch(off, lo, hi, i, rs) ==                  \* shared by firstBlock (Go) and first_block (Python)
+\* sort.Search(n, f) / the while loop of first_block: smallest i in [lo, hi) whose block ends after rs, else hi
+RECURSIVE LowerBound(_, _, _, _)
+LowerBound(off, lo, hi, rs) ==
+    IF ~(lo < hi) THEN lo
+    ELSE LET h == (lo + hi) \div 2
+         IN IF off[h+1] > rs THEN LowerBound(off, lo, h, rs) ELSE LowerBound(off, h + 1, hi, rs)
+\* firstBlock (manifest.go, since d02d736): "if i == n { return -1 }"
+GoFirstBlock(off, n, rs) == LET i == LowerBound(off, 0, n, rs) IN IF i = n THEN -1 ELSE i
+\* first_block (_ranges.py, since b303e5c): "if lo == len(data_locators) or data_locators[lo].range_start > range_start"
+PyFirstBlock(off, n, rs) == LET lo == LowerBound(off, 0, n, rs) IN IF lo = n \/ off[lo] > rs THEN -1 ELSE lo
+
+\* HISTORY: the search both codecs had before those commits (KF-C10-1a/1b/1c, fixed).  Kept so that
+\* OldSearchWasWrong documents, checkably, which inputs it failed on.
+RECURSIVE OldBinSearch(_, _, _, _, _)
+OldBinSearch(off, lo, hi, i, rs) ==
     IF rs >= off[i] /\ rs < off[i+1] THEN i
     ELSE IF lo = i THEN -1                         \* "must be out of range, fail"
     ELSE LET lo2 == IF rs > off[i] THEN i ELSE lo
              hi2 == IF rs > off[i] THEN hi ELSE i
-         IN BinSearch(off, lo2, hi2, (hi2 + lo2) \div 2, rs)
-FirstBlock(off, n, rs) == BinSearch(off, 0, n, n \div 2, rs)    \* hi = len(offsets)-1 = n (Go); hi = len(data_locators) = n (Python)
+         IN OldBinSearch(off, lo2, hi2, (hi2 + lo2) \div 2, rs)
+OldFirstBlock(off, n, rs) == OldBinSearch(off, 0, n, n \div 2, rs)
 
 RECURSIVE GoManLoop(_, _, _, _, _, _)
 GoManLoop(blocks, off, i, wantPos, wantLen, acc) ==
@@ -167,7 +174,7 @@ GoManLoop(blocks, off, i, wantPos, wantLen, acc) ==
 GoManToken(s, t) ==
     IF t.len = 0 THEN [panic |-> FALSE, segs |-> << <<0, 0, 0>> >>]           \* the d41d8...+0 pseudo segment
     ELSE LET off == Offsets(s.blocks)
-             i   == FirstBlock(off, Len(s.blocks), t.pos)
+             i   == GoFirstBlock(off, Len(s.blocks), t.pos)
          IN IF i = -1 THEN [panic |-> TRUE, segs |-> <<>>]                    \* "extends past end of stream"
             ELSE GoManLoop(s.blocks, off, i, t.pos, t.len, <<>>)
 
@@ -192,9 +199,9 @@ PyLoop(rs, off, i, rst, re, acc) ==                       \* the while loop of l
                             ELSE <<>>
                  IN PyLoop(rs, off, i + 1, rst, re, acc \o seg)
 PyLR(rs, start, n) ==                                     \* locators_and_ranges(data_locators, start, n)
-    IF n = 0 \/ rs = <<>> THEN <<>>                       \* (callers never pass an empty list: readfrom returns b'' first)
+    IF n = 0 THEN <<>>
     ELSE LET off == RangeOffsets(rs)
-             i   == FirstBlock(off, Len(rs), start)
+             i   == PyFirstBlock(off, Len(rs), start)
          IN IF i = -1 THEN <<>>                            \* first_block returned None
             ELSE PyLoop(rs, off, i, start, start + n, <<>>)
 StreamRanges(s) == [i \in DOMAIN s.blocks |-> <<s.blocks[i], 0, Size(s.blocks[i])>>]   \* _import_manifest
@@ -214,7 +221,8 @@ Digit(c, dec) == IF dec THEN IsDec(c) ELSE IsOct(c)
 MapBytes(n, f(_)) == LET F[i \in 0 .. Len(n)] == IF i = 0 THEN <<>> ELSE F[i-1] \o f(n[i])
                      IN F[Len(n)]
 
-GoManEscape(n) == LET f(c) == IF c <= 32 THEN Oct3(c) ELSE <<c>> IN MapBytes(n, f)               \* EscapeName
+GoManEscape(n) == LET f(c) == IF c <= 32 \/ c = BS THEN Oct3(c) ELSE <<c>> IN MapBytes(n, f)     \* EscapeName (since bc06505)
+OldGoManEscape(n) == LET f(c) == IF c <= 32 THEN Oct3(c) ELSE <<c>> IN MapBytes(n, f)           \* HISTORY: before bc06505 (KF-C10-2, fixed)
 GoFsEscape(n)  == LET f(c) == IF c <= 32 \/ c = COLON \/ c = BS THEN Oct3(c) ELSE <<c>>          \* manifestEscape
                   IN MapBytes(n, f)
 PyEscape(n)    == LET f1(c) == IF c = BS THEN Oct3(BS) ELSE <<c>>                                \* escape(): two passes
@@ -246,7 +254,10 @@ PyUnescFrom(t, i) ==
 PyUnescape(t) == PyUnescFrom(t, 1)
 
 (***************************************************************************)
-(* Named exclusions = the known-finding classes                            *)
+(* Named exclusions = the known-finding classes.  Only ZSeg (KF_C10_3) is  *)
+(* still an exclusion; ZStart, ZSpan and BsOct describe defects that are   *)
+(* fixed in the code and in this model and only serve OldSearchWasWrong /  *)
+(* OldEscapeWasWrong and the labelling done by checks/C10.py.              *)
 (***************************************************************************)
 ZStart(s, t) == /\ t.len > 0
                 /\ \E i \in DOMAIN s.blocks : /\ Size(s.blocks[i]) = 0
@@ -307,22 +318,17 @@ GoFsRefines == \A i \in DOMAIN sc.streams :
     LET s == sc.streams[i]  r == GoFsStream(s)
     IN \A k \in DOMAIN s.toks : ~r[k].err /\ NonEmpty(r[k].segs) = Segments(s, s.toks[k])
 
-\* the model of sendFileSegmentIterByName does, outside KF_C10_1; inside it, it may only fail by panicking
+\* the model of firstBlock + sendFileSegmentIterByName does too, and never panics
 GoManRefines == \A i \in DOMAIN sc.streams :
     LET s == sc.streams[i]
     IN \A k \in DOMAIN s.toks :
          LET r == GoManToken(s, s.toks[k])
-         IN IF ZStart(s, s.toks[k])
-            THEN r.panic \/ NonEmpty(r.segs) = Segments(s, s.toks[k])
-            ELSE ~r.panic /\ NonEmpty(r.segs) = Segments(s, s.toks[k])
+         IN ~r.panic /\ NonEmpty(r.segs) = Segments(s, s.toks[k])
 
+\* and so does the model of first_block + locators_and_ranges
 PyRefines == \A i \in DOMAIN sc.streams :
     LET s == sc.streams[i]
-    IN \A k \in DOMAIN s.toks :
-         LET r == NonEmpty(PyToken(s, s.toks[k]))
-         IN IF ZStart(s, s.toks[k])
-            THEN r = <<>> \/ r = Segments(s, s.toks[k])
-            ELSE r = Segments(s, s.toks[k])
+    IN \A k \in DOMAIN s.toks : NonEmpty(PyToken(s, s.toks[k])) = Segments(s, s.toks[k])
 
 \* file level: every sub-range of every file, read the way arvfile.readfrom does
 FileNamesOf(s) == {s.toks[k].name : k \in DOMAIN s.toks}
@@ -334,8 +340,7 @@ PyReadRefines == \A i \in DOMAIN sc.streams :
     LET s == sc.streams[i]
     IN \A f \in FileNamesOf(s) :
          LET want == WantBytes(s, f)
-             kf   == \E k \in DOMAIN s.toks : s.toks[k].name = f /\ (ZStart(s, s.toks[k]) \/ ZSpan(s, s.toks[k]))
-         IN kf \/ \A start \in 0 .. Len(want) - 1 : \A n \in 1 .. Len(want) - start :
+         IN \A start \in 0 .. Len(want) - 1 : \A n \in 1 .. Len(want) - start :
                     Flatten(NonEmpty(PyReadFrom(s, f, start, n))) = SubSeq(want, start + 1, start + n)
 
 \* file level: a positioned one-byte read at every offset of every file through filenode.seek/Read
@@ -356,12 +361,26 @@ EscapersRoundTrip == \A n \in PlainNames :
     /\ Unescape(RefEscape(n)) = n
     /\ Unescape(GoFsEscape(n)) = n /\ GoFsUnescape(GoFsEscape(n)) = n
     /\ Unescape(PyEscape(n)) = n /\ PyUnescape(PyEscape(n)) = n
-    /\ IF BsOct(n) THEN Unescape(GoManEscape(n)) # n                          \* KF_C10_2 is real in the model
-       ELSE Unescape(GoManEscape(n)) = n /\ GoManUnescape(GoManEscape(n)) = n
+    /\ Unescape(GoManEscape(n)) = n /\ GoManUnescape(GoManEscape(n)) = n
 
-\* non-vacuity: the KF class is inhabited and the defect shows in the model (checked with a negated invariant once)
-SomeZStartPanics == \E i \in DOMAIN sc.streams : \E k \in DOMAIN sc.streams[i].toks :
-                       ZStart(sc.streams[i], sc.streams[i].toks[k]) /\ GoManToken(sc.streams[i], sc.streams[i].toks[k]).panic
+\* HISTORY, checkable: the old search failed only inside ZStart (stream level), and the old EscapeName
+\* exactly on BsOct names.  (Negate SomeOldSearchFailure once to see that the class is inhabited.)
+OldSearchWasWrong == \A i \in DOMAIN sc.streams :
+    LET s == sc.streams[i]
+    IN \A k \in DOMAIN s.toks :
+         LET t == s.toks[k]  off == Offsets(s.blocks)
+         IN t.len > 0 /\ OldFirstBlock(off, Len(s.blocks), t.pos) # GoFirstBlock(off, Len(s.blocks), t.pos) => ZStart(s, t)
+SomeOldSearchFailure == \E i \in DOMAIN sc.streams : \E k \in DOMAIN sc.streams[i].toks :
+    LET s == sc.streams[i]  t == s.toks[k]
+    IN t.len > 0 /\ OldFirstBlock(Offsets(s.blocks), Len(s.blocks), t.pos) = -1
+OldEscapeWasWrong == \A n \in PlainNames : (Unescape(OldGoManEscape(n)) # n) <=> BsOct(n)
+
+\* The one place where the codecs disagree and the format document decides nothing (see ManifestContract,
+\* "silent"): two consecutive backslashes in manifest text.  Recorded so that a change of either reading shows.
+DoubleBackslashReadings == /\ GoManUnescape(<<BS, BS>>) = <<BS>> /\ GoFsUnescape(<<BS, BS>>) = <<BS>>
+                           /\ PyUnescape(<<BS, BS>>) = <<BS, BS>> /\ Unescape(<<BS, BS>>) = <<BS, BS>>
+                           /\ GoManUnescape(<<BS, BS, 49, 48, 49>>) = <<BS, 49, 48, 49>>     \* \\101 : Go "\101"
+                           /\ PyUnescape(<<BS, BS, 49, 48, 49>>) = <<BS, 65>>               \*          Python "\A"
 
 (***************************************************************************)
 (* Scenario emission (Gen_C10*.cfg): the record is the input; the expected *)
